@@ -79,17 +79,21 @@ func RunC06(st *simcore.Stream, tier, leg string, logOn bool, res *simcore.Resul
 	var actions []int
 	const sweepAlphabet = 9
 	if sweep {
-		// K enumerates all sequences over the sweep alphabet by length
+		// K enumerates all sequences over the sweep alphabet by length; the sequence is
+		// recorded in the choice stream so that the run replays from its decision list
 		k := res.K
 		length := 0
-		count := 1
-		for k >= count {
-			k -= count
-			length++
-			count *= sweepAlphabet
+		if !st.Replaying {
+			count := 1
+			for k >= count {
+				k -= count
+				length++
+				count *= sweepAlphabet
+			}
 		}
+		length = int(st.Fixed(uint32(length))) % 12
 		for i := 0; i < length; i++ {
-			actions = append(actions, k%sweepAlphabet)
+			actions = append(actions, int(st.Fixed(uint32(k%sweepAlphabet)))%sweepAlphabet)
 			k /= sweepAlphabet
 		}
 	} else {
